@@ -55,3 +55,16 @@ Proof. intros H. unfold pkt_time. rewrite H. reflexivity. Qed.
 Example C14_nonvacuous :
   parse_utc (splice (repeat 0 42) 20 (create_utc 1700000000123456)) 20 = 1700000000123456.
 Proof. vm_compute. reflexivity. Qed.
+
+(* T4: the dispatch on the current source. LidarDriverImpl::internalProcessPacket is regenerated on every run as a statement tree and
+   interpreted over the model's driver state (Proofs/DispatchCode.v): for every packet content, driver state, build and clock value it
+   is the model's process_packet - a packet is dispatched on its own first two bytes (one shorter than that is neither MSOP nor DIFOP),
+   the packet callback gets an MSOP packet with the decoder's packet time and the split flag of THIS packet, a DIFOP packet with
+   time 0 and no flag, in processing order; and the buffer goes back to the free pool exactly once *)
+From RS Require Import Gen.Kernels_gen Proofs.Handover Proofs.DispatchCode.
+Theorem C14_T4_dispatch_code_is_model bl tbl now host v th b stale :
+  exists m, drun bl tbl now host LidarDriverImpl_internalProcessPacket_effects (mk_dm v th [] b false false) = Go m /\
+            (x_v m, x_th m, x_out m) = process_packet bl tbl v th now host b stale /\ x_recycled m = true.
+Proof. exact (internalProcessPacket_code_is_model bl tbl now host v th b stale). Qed.
+Print Assumptions C14_T4_dispatch_code_is_model.
+
